@@ -383,6 +383,10 @@ class NatCtx(_CtxBase):
         self.failed = []          # labels of failed checks
         self.nchecks = 0
 
+    @property
+    def tier(self):
+        return TIER
+
     def _draw_int(self, lo, hi):
         r = self.rng
         if lo is None and hi is None:
@@ -559,8 +563,13 @@ def _run_native_once(ob, inputs=None, rng=None):
     return ctx
 
 
+TIER = "quick"
+
+
 def run_obligation(ob, seed, tier):
     """returns a JSON-able result dict"""
+    global TIER
+    TIER = tier
     t0 = time.time()
     res = {"name": ob.name, "kind": ob.kind, "expect": ob.expect, "labels": {}, "paths": 0, "verdict": None,
            "crash": None, "native_samples": 0, "native_failures": [], "wall_s": 0.0, "note": ob.note,
@@ -602,7 +611,7 @@ def run_obligation(ob, seed, tier):
             out["reason_unknown"] = c["undecided"][:2]
         res["labels"][label] = out
     # native sampling: CPython cross-check / bounded stand-in
-    nsamp = ob.samples * (10 if tier == "thorough" else 1)
+    nsamp = ob.samples * (10 if tier == "thorough" and ob.kind != "bounded" else 1)
     rng = random.Random((seed * 1000003) ^ hash(ob.name) & 0xFFFFFFF)
     rng = random.Random(f"{seed}:{ob.name}")
     nat_fail = {}
